@@ -29,6 +29,12 @@
        xfer a n    inter-call transfer of n to the user a   (c = TRUE: a failure is caught)
        call a n    inter-call of contract a with value n and the sub-program `sub`
        revert      fail
+   A call of a contract in Hangers never returns: callContext.waitResult gives up when the chain's
+   transaction timeout expires, cleanUpFrames discards the waiting frames, and the Timeout status
+   travels up through every calling frame (handleResult -> cleanUpFrames: each of them is reset to
+   its snapshot, no logs are merged, catch flags do not apply) to transactionHandler.DoExecute,
+   which then consumes all remaining steps.  The transaction fails with everything rolled back
+   except the fee for the whole step limit.
    The steps a real implementation charges are implementation-defined; this model fixes them
    through the chain configuration constants (DefaultCost, InputCost, CallCost) so that it can
    predict outcomes (`exact` mode).  For validating recorded executions the same interpreter
@@ -39,6 +45,8 @@ EXTENDS Integers, Sequences, FiniteSets, TLC
 CONSTANTS Users,          \* externally owned accounts (strings)
           Contracts,      \* scripted contracts (strings)
           Ghosts,         \* contract addresses without code
+          Hangers,        \* contracts whose (asynchronous) handler never answers: a call to them ends
+                          \* with the transaction timeout
           Keys,           \* storage keys
           Prices,         \* step prices the governance may set
           DefaultCost, InputCost, CallCost,   \* step costs of the chain configuration
@@ -48,7 +56,7 @@ CONSTANTS Users,          \* externally owned accounts (strings)
 
 Treasury == "t"
 Payees == Users \cup {Treasury}                 \* accounts a plain transfer may credit
-Accts == Users \cup Contracts \cup Ghosts \cup {Treasury}
+Accts == Users \cup Contracts \cup Ghosts \cup Hangers \cup {Treasury}
 
 VARIABLES w,       \* world: [bal |-> [Accts -> Int], st |-> [Contracts -> [Keys -> Int]]]
           price,   \* current step price
@@ -84,7 +92,8 @@ ORevert      == Op("revert", "", 0, <<>>, FALSE)
      exact     TRUE: decide step charges by accounting; FALSE: take them from orc
      orc       recorded decisions still to be consumed (bound mode)
      dec       decisions taken so far (both modes; the prediction in exact mode)
-     bad       bound mode ran out of recorded decisions (control flow differs) *)
+     bad       bound mode ran out of recorded decisions (control flow differs)
+     tmo       a call inside timed out: the Timeout status is on its way up *)
 Decide(f, n) == IF f.exact THEN f.su + n <= f.lim
                 ELSE IF f.orc = <<>> THEN FALSE ELSE Head(f.orc)
 \* callframe.deductSteps: over the limit => used := limit, failure
@@ -107,7 +116,7 @@ Pop(f, c, ok) ==
             !.logs = IF ok THEN f.logs + c.logs ELSE f.logs, \* applyFrameLogsOf on success
             !.msgs = IF ok THEN f.msgs + c.msgs ELSE f.msgs, \* applyBTPMessagesOf on success
             !.su   = Min(f.lim, f.su + c.su),
-            !.orc  = c.orc, !.dec = c.dec, !.bad = c.bad]
+            !.orc  = c.orc, !.dec = c.dec, !.bad = c.bad, !.tmo = c.tmo]
 
 Move(f, from, to, n) == [f EXCEPT !.bal = [@ EXCEPT ![from] = @ - n, ![to] = f.bal[to] + IF from = to THEN 0 ELSE n]]
 \* TransferHandler.DoExecuteSync inside frame f; result [ok, f]
@@ -130,6 +139,7 @@ Invoke(f, from, to, val, prog, origin, pay) ==
        [ok |-> FALSE, f |-> ChargeSilently(t.f, CallCost)]
   ELSE LET c == Charge(t.f, CallCost) IN          \* the contract's own entry charge
        IF ~c.ok THEN [ok |-> FALSE, f |-> c.f]
+       ELSE IF to \in Hangers THEN [ok |-> FALSE, f |-> [c.f EXCEPT !.tmo = TRUE]]   \* never answers
        ELSE RunOps(prog, c.f, to, origin)
 
 RunOps(ops, f, self, origin) ==
@@ -153,7 +163,7 @@ RunOps(ops, f, self, origin) ==
       [] op.o = "call" ->
            (LET r == Invoke(Push(f), self, op.a, op.n, op.sub, origin, op.n > 0)
                 g == Pop(f, r.f, r.ok)
-            IN IF r.ok \/ op.c THEN RunOps(rest, g, self, origin) ELSE [ok |-> FALSE, f |-> g])
+            IN IF (r.ok \/ op.c) /\ ~g.tmo THEN RunOps(rest, g, self, origin) ELSE [ok |-> FALSE, f |-> g])
 
 ----------------------------------------------------------------------------
 (* Transactions.  kind: "transfer" (no data), "message" (data, to a user), "call" (to a contract
@@ -163,7 +173,7 @@ Tx(from, to, value, limit, kind, dlen, prog) ==
 
 Frame0(ww, lim, exact, orc) ==
   [bal |-> ww.bal, st |-> ww.st, logs |-> 0, msgs |-> 0, su |-> 0, lim |-> lim,
-   exact |-> exact, orc |-> orc, dec |-> <<>>, bad |-> FALSE]
+   exact |-> exact, orc |-> orc, dec |-> <<>>, bad |-> FALSE, tmo |-> FALSE]
 
 \* the handler of the first frame (cm.GetHandler): users get the TransferHandler, contracts
 \* TransferAndCallHandler (plain transfer, or call with value) or CallHandler
@@ -185,7 +195,8 @@ ExecExact(ww, p, tx) ==
       r == IF entered THEN TopHandler(Push(c2.f), tx) ELSE [ok |-> FALSE, f |-> c2.f]
       b == IF ~pre THEN b0 ELSE IF entered THEN Pop(c2.f, r.f, r.ok) ELSE c2.f
       ok1 == entered /\ r.ok
-      su == Max(b.su, DefaultCost)                 \* "sustain minimum"
+      \* DoExecute: "it consumes all steps if it meets timeout"
+      su == Max(IF b.tmo THEN b.lim ELSE b.su, DefaultCost)   \* "sustain minimum"
       fee == su * p
       balAfter == b.bal[tx.from]
       \* the charge loop
@@ -199,7 +210,7 @@ ExecExact(ww, p, tx) ==
   IN [w |-> [wOut EXCEPT !.bal[tx.from] = @ - fee2],
       ok |-> ok2,
       code |-> IF ok2 THEN "ok" ELSE IF ~pre \/ rollback THEN "balance"
-               ELSE IF ~entered THEN "step" ELSE "fail",
+               ELSE IF ~entered THEN "step" ELSE IF b.tmo THEN "timeout" ELSE "fail",
       su |-> su, price |-> p2, fee |-> fee2,
       logs |-> IF ok2 THEN b.logs ELSE 0, msgs |-> IF ok2 THEN b.msgs ELSE 0,
       rb |-> rollback, fr |-> free,            \* which branch of the charge loop was taken
